@@ -278,7 +278,9 @@ pub fn compare_norm(input: &Scan, output: &Scan, dir: &str, lib: &LibView) -> No
                     "link-retargeted",
                     format!("{} ({:?}) -> {} ({:?})", x.dest, kx, y.dest, ky),
                 ));
-            } else if !x.block_ref && strip_md(&x.dest) != strip_md(&y.dest) {
+            } else if !x.block_ref && (strip_md(&x.dest) != strip_md(&y.dest) || (!mdscan::is_note_like(&x.dest) && x.dest != y.dest)) {
+                // the configured extension is presentation of note names only: an anchor, a query or a file of another
+                // type keeps its destination to the letter
                 r.c06.push(d(
                     "link-dest-rewritten",
                     format!("{} -> {}", x.dest, y.dest),
